@@ -16,6 +16,7 @@ from common import ENV, HARNESS_BIN, NPROC, build_tuc, case_line, hx, parse_resu
 from gen import strings_upto
 
 LEVEL = "proof"
+LYING = lambda a: True        # which command lines of cases.rand_cli the lying-size stdin scenario keeps
 
 BOUNDS_POOL = ["1", "2,1", "-1", "1:", ":2", "0", "-0", "+1", "2147483647", "2147483648", "-2147483648", "-2147483649", "99999999999999999999",
                "1:2147483647", "-2147483648:2147483647", "46341=x,46341=y", "65536:32768", "1,1073741824=x", "50000,60000", "{", "}", "{{", "x{{y",
@@ -94,6 +95,50 @@ def cli_batch(binary, cases, retry=True):
         for i, r in zip(miss, cli_batch(binary, [cases[i] for i in miss], retry=False)):
             res[i] = r
     return res
+
+
+def hostile_descriptors(chk):
+    modes = {"fast": ["-d", "-", "-f", "1,3"], "general": ["-d", "-", "-g", "-f", "2,1", "-j"], "M": ["-d", "-", "-f", "1,3", "-M", "1"],
+             "b": ["-b", "1:"], "l": ["-l", "1:"], "lbuf": ["-l", "-2:"], "c": ["-c", "1:3"], "json": ["-d", "-", "--json", "-f", "1:"],
+             "help": ["-h"], "version": ["-V"], "nothing": []}
+    big = b"".join(b"aaaa-bbbb-cccc--dddd\n" for _ in range(7000))
+    small = b"a-b-c\nd-e-f\n"
+    for release in (False, True):
+        binary = build_tuc(release=release)
+        for name, args in modes.items():
+            for data in (small, big):
+                for how in ("reader-gone", "dev-full", "stdout-closed", "stdin-closed", "stdin-dir"):
+                    try:
+                        if how == "reader-gone":
+                            p = subprocess.Popen([binary] + args, stdin=subprocess.PIPE, stdout=subprocess.PIPE, stderr=subprocess.DEVNULL, env=ENV)
+                            p.stdout.close()
+                            try:
+                                p.stdin.write(data)
+                                p.stdin.close()
+                            except (BrokenPipeError, OSError):
+                                pass
+                            rc = p.wait(timeout=30)
+                        elif how == "dev-full":
+                            with open("/dev/full", "wb") as f:
+                                rc = subprocess.run([binary] + args, input=data, stdout=f, stderr=subprocess.DEVNULL, env=ENV, timeout=30).returncode
+                        elif how == "stdout-closed":
+                            rc = subprocess.run([binary] + args, input=data, stderr=subprocess.DEVNULL, env=ENV, timeout=30, preexec_fn=lambda: os.close(1)).returncode
+                        elif how == "stdin-closed":
+                            rc = subprocess.run([binary] + args, stdout=subprocess.DEVNULL, stderr=subprocess.DEVNULL, env=ENV, timeout=30, preexec_fn=lambda: os.close(0)).returncode
+                        else:
+                            fd = os.open("/", os.O_RDONLY)
+                            try:
+                                rc = subprocess.run([binary] + args, stdin=fd, stdout=subprocess.DEVNULL, stderr=subprocess.DEVNULL, env=ENV, timeout=30).returncode
+                            finally:
+                                os.close(fd)
+                    except subprocess.TimeoutExpired:
+                        rc = "timeout"
+                    chk.evaluations += 1
+                    chk.count(f"hostile:{how}:{rc}")
+                    chk.nontrivial_add(("hostile", release, name, len(data), how))
+                    if rc not in (0, 1):
+                        chk.report_oracle("with a hostile stdout / stdin the invocation does not end with status 0 or 1 (a negative status is a signal)",
+                                          {"argv": args, "stdin_bytes": len(data), "environment": how, "build": "release" if release else "debug", "status": rc})
 
 
 def run(chk):
@@ -213,6 +258,9 @@ def run(chk):
                     chk.report_oracle("with stdout on a terminal the invocation does not end with the expected status / prints no help",
                                       {"argv": argv, "env": envx, "stdout_is_a_tty": True, "build": "release" if release else "debug", "status": rc,
                                        "stdout_hex": got[:400].hex()})
+    # ---- hostile descriptors: the reader of stdout is gone (EPIPE — a process that restores SIGPIPE's default action is KILLED here), stdout is
+    # /dev/full or closed, stdin is closed or a directory; small outputs (fail in the final flush) and outputs larger than every buffer
+    hostile_descriptors(chk)
     # ---- CLI
     n = 3000 if chk.tier == "quick" else 40000
     cli_cases = [(rand_argv(rng), rand_stdin(rng)) for _ in range(n)]
